@@ -33,7 +33,8 @@ def setup(ctx):
     ctx.rule = (
         "cells = server context path {create_server_context via start_server, create_pyopenssl_server_context via "
         "start_server, auto-generated stdlib, auto-generated PyOpenSSL, both factory functions called directly with "
-        "request_client_cert on/off} x protocol version offered alone by a permissive client (TLS 1.0 .. 1.3, "
+        "request_client_cert on/off; every one of them also with the OpenSSL security level lowered to 0 after "
+        "construction, so that the refusal is nauyaca's version floor and not OpenSSL's default level} x protocol version offered alone by a permissive client (TLS 1.0 .. 1.3, "
         "SECLEVEL=0, several cipher strings) ; client contexts {TOFU mode, CA mode, GeminiClient.get end-to-end} x "
         "permissive peer capped at TLS 1.0 / 1.1 ; plaintext request lines and random bytes to every server variant. "
         "Each old-version cell is paired with a control peer. distinct = (side, context path, version, cipher string, outcome)."
@@ -42,7 +43,7 @@ def setup(ctx):
         "SSLv3 cannot be offered by this interpreter's ssl module (HAS_SSLv3 is false): recorded as unreachable, not as held",
         "controls use the same client/peer object against a context without a minimum version",
     ]
-    ctx.require("monitor", "old_version_attempts_server", 16)
+    ctx.require("monitor", "old_version_attempts_server", 30)
     ctx.require("monitor", "controls_ok", 6)
     ctx.require("monitor", "new_version_ok", 8)
     ctx.require("monitor", "old_version_attempts_client", 4)
@@ -316,6 +317,63 @@ def run(ctx):
                 plaintext_probe(ctx, label, lt.port, handler_calls=handler_calls)
             finally:
                 lt.stop()
+        # ---- the same contexts with the OpenSSL security level lowered to 0 *after* nauyaca built them:
+        # at the default level OpenSSL itself refuses TLS < 1.2, which would mask a missing version floor.
+        # The four start_server paths are reached through the captured production wiring.
+        from nauyaca.server.config import ServerConfig
+
+        from vf import quiet_logs
+        from vf.sim import capture_factory
+
+        lowered = []
+        for req_cert in (False, True):
+            lowered.append((f"create_server_context:request_client_cert={req_cert}:seclevel0", "stdlib", create_server_context(ident.certfile, ident.keyfile, request_client_cert=req_cert)))
+            lowered.append((f"create_pyopenssl_server_context:request_client_cert={req_cert}:seclevel0", "pyopenssl", create_pyopenssl_server_context(ident.certfile, ident.keyfile, request_client_cert=req_cert)))
+        for label, backend, own in cells:
+            out = io.StringIO()
+            with contextlib.redirect_stdout(out):
+                kw = dict(host="127.0.0.1", port=1965, document_root=os.path.join(base, "doc"), require_client_cert=(backend == "pyopenssl"))
+                sc = ServerConfig(**kw)
+                if own:
+                    from pathlib import Path as _P
+
+                    sc.certfile, sc.keyfile = _P(ident.certfile), _P(ident.keyfile)
+                    cap = capture_factory(dict(log_level="CRITICAL", enable_rate_limiting=False), sc)
+                else:
+                    # capture_factory would supply a certificate; call start_server's own auto-generation path
+                    from nauyaca.server import server as _srv
+
+                    cap = {"kwargs": {"ssl": _srv._create_self_signed_context()} if backend == "stdlib" else {}, "factory": None}
+                    if backend == "pyopenssl":
+                        pctx_auto = _srv._create_self_signed_pyopenssl_context()
+                        cap["pyctx"] = pctx_auto
+            leaked += re.findall(r"(?:Certificate|Key): (\S+)", out.getvalue())
+            quiet_logs()
+            if backend == "stdlib":
+                lowered.append((label + ":seclevel0", "stdlib", cap["kwargs"]["ssl"]))
+            else:
+                pyctx = cap.get("pyctx") or cap["factory"]().ssl_context
+                lowered.append((label + ":seclevel0", "pyopenssl", pyctx))
+        for label, backend, c in lowered:
+            if backend == "stdlib":
+                c.set_ciphers("ALL:@SECLEVEL=0")
+                with RawTLSServer(c) as rs:
+                    probe_server(ctx, label, rs.port, controls, ciphers_list, "stdlib")
+            else:
+                c.set_cipher_list(b"ALL:@SECLEVEL=0")
+
+                async def main_l(c=c):
+                    loop = asyncio.get_running_loop()
+                    server = await loop.create_server(lambda: TLSServerProtocol(lambda: GeminiServerProtocol(handler), c), "127.0.0.1", 0)
+                    async with server:
+                        await server.serve_forever()
+
+                lt = live._LoopThread()
+                lt.start(main_l)
+                try:
+                    probe_server(ctx, label, lt.port, controls, ciphers_list, "pyopenssl")
+                finally:
+                    lt.stop()
         with live.ProtocolServer(lambda: GeminiServerProtocol(handler), backend="stdlib", server_ident=ident) as ps2:
             plaintext_probe(ctx, "create_server_context+spy-handler", ps2.port, handler_calls=handler_calls)
 
